@@ -187,13 +187,13 @@ where
                     print_use_target_wildcard(children, ctx, allocator)
                 }
                 SyntaxKind::VisibilityPub => print_visibility_pub(children, ctx, allocator),
-                SyntaxKind::MatchExpr
-                | SyntaxKind::MatchArm
-                | SyntaxKind::MatchArmList
-                | SyntaxKind::MatchPattern
+                SyntaxKind::MatchExpr => print_match_expr(children, ctx, allocator),
+                SyntaxKind::MatchArmList => print_match_arm_list(children, ctx, allocator),
+                SyntaxKind::MatchArm => print_match_arm(children, ctx, allocator),
+                SyntaxKind::TypeDecl => print_type_decl(children, ctx, allocator),
+                SyntaxKind::MatchPattern
                 | SyntaxKind::ConstructorPattern
-                | SyntaxKind::TypeDecl
-                | SyntaxKind::VariantDef => print_leaf_children(children, ctx, allocator),
+                | SyntaxKind::VariantDef => print_comma_spaced_children(children, ctx, allocator),
                 SyntaxKind::Error => allocator.text("/* error */"),
             }
         }
@@ -299,6 +299,128 @@ where
         .map(|&child| cst_to_doc(child, ctx, allocator))
         .collect();
     allocator.concat(docs)
+}
+
+/// Children one after the other, with a space after every comma (`Cons(float, List)`).
+fn print_comma_spaced_children<'a, D, A>(
+    children: &[GreenNodeId],
+    ctx: &PrintContext,
+    allocator: &'a D,
+) -> DocBuilder<'a, D, A>
+where
+    D: DocAllocator<'a, A>,
+    D::Doc: Clone + Pretty<'a, D, A>,
+    A: Clone,
+{
+    let mut result = allocator.nil();
+    for &child in children.iter() {
+        result = result.append(cst_to_doc(child, ctx, allocator));
+        if child_token_kind(child, ctx) == Some(TokenKind::Comma) {
+            result = result.append(allocator.space());
+        }
+    }
+    result
+}
+
+/// The kind of a child that is a token (None for an inner node).
+fn child_token_kind(child: GreenNodeId, ctx: &PrintContext) -> Option<TokenKind> {
+    match ctx.arena.get(child) {
+        mimium_lang::compiler::parser::green::GreenNode::Token { token_index, .. } => {
+            Some(ctx.tokens[*token_index].kind)
+        }
+        _ => None,
+    }
+}
+
+/// `type alias T = float`, `type rec L = Nil | Cons(float, L)`: the parts separated by one space.
+fn print_type_decl<'a, D, A>(
+    children: &[GreenNodeId],
+    ctx: &PrintContext,
+    allocator: &'a D,
+) -> DocBuilder<'a, D, A>
+where
+    D: DocAllocator<'a, A>,
+    D::Doc: Clone + Pretty<'a, D, A>,
+    A: Clone,
+{
+    let docs: Vec<_> = children
+        .iter()
+        .map(|&child| cst_to_doc(child, ctx, allocator))
+        .collect();
+    allocator.intersperse(docs, allocator.space())
+}
+
+/// `match scrutinee {` arms, one per line `}`
+fn print_match_expr<'a, D, A>(
+    children: &[GreenNodeId],
+    ctx: &PrintContext,
+    allocator: &'a D,
+) -> DocBuilder<'a, D, A>
+where
+    D: DocAllocator<'a, A>,
+    D::Doc: Clone + Pretty<'a, D, A>,
+    A: Clone,
+{
+    let mut result = allocator.nil();
+    for &child in children.iter() {
+        let doc = cst_to_doc(child, ctx, allocator);
+        match child_token_kind(child, ctx) {
+            Some(TokenKind::Match) => result = result.append(doc).append(allocator.space()),
+            Some(TokenKind::BlockBegin) => result = result.append(allocator.space()).append(doc),
+            Some(TokenKind::BlockEnd) => result = result.append(allocator.hardline()).append(doc),
+            _ => result = result.append(doc),
+        }
+    }
+    result
+}
+
+/// The arms of a `match`, each on its own line (a comma after an arm stays with it).
+fn print_match_arm_list<'a, D, A>(
+    children: &[GreenNodeId],
+    ctx: &PrintContext,
+    allocator: &'a D,
+) -> DocBuilder<'a, D, A>
+where
+    D: DocAllocator<'a, A>,
+    D::Doc: Clone + Pretty<'a, D, A>,
+    A: Clone,
+{
+    let mut result = allocator.nil();
+    for &child in children.iter() {
+        let doc = cst_to_doc(child, ctx, allocator);
+        if child_token_kind(child, ctx) == Some(TokenKind::Comma) {
+            result = result.append(doc);
+        } else {
+            result = result.append(allocator.hardline()).append(doc);
+        }
+    }
+    result.nest(get_indent_size() as isize)
+}
+
+/// `pattern => body`
+fn print_match_arm<'a, D, A>(
+    children: &[GreenNodeId],
+    ctx: &PrintContext,
+    allocator: &'a D,
+) -> DocBuilder<'a, D, A>
+where
+    D: DocAllocator<'a, A>,
+    D::Doc: Clone + Pretty<'a, D, A>,
+    A: Clone,
+{
+    let mut result = allocator.nil();
+    for &child in children.iter() {
+        let doc = cst_to_doc(child, ctx, allocator);
+        if child_token_kind(child, ctx) == Some(TokenKind::FatArrow) {
+            result = result
+                .append(allocator.space())
+                .append(doc)
+                .append(allocator.space());
+        } else {
+            result = result.append(doc);
+        }
+    }
+    result
 }
 
 // ============================================================================
